@@ -4,6 +4,8 @@ model under the schedule given by the lines and prints the observable state.
 
   ring reset <k> <adv> <gate>      fresh ring of size 2^k, cursors pre-advanced to <adv>, gate <gate>
   ring thread <P|C|K<i>> <call>…   declare a thread program; calls: write:n wwait:n wfill wcommit:n
+                                   rfrom:m1,m2,… (ReadFrom; the reader's k-th Read returns min mk (len p)
+                                   bytes, after the script (0, EOF); "rfrom:-" = empty script)
                                    read:n peek:n rwait:n use commit:n close len
   ring step <T>                    release thread T for one step (mark to mark); then every woken
                                    waiter whose mutex is free re-acquires it (the real scheduler
@@ -34,6 +36,8 @@ structure DSt where
   s : St := init { k := 14, src := testSrc } 0 0
   hasP : Bool := false
   hasC : Bool := false
+  progP : Bool := false     -- P's program was declared by a `thread` line (not only used by `call` lines)
+  progC : Bool := false
   dead : Bool := false
 
 def DSt.init : DSt := {}
@@ -51,6 +55,7 @@ def parseCall (w : String) : Option Call :=
   | ["wwait", n] => n.toNat?.map .wwait
   | ["wfill"] => some .wfill
   | ["wcommit", n] => n.toNat?.map .wcommit
+  | ["rfrom", ms] => if ms == "-" then some (.rfrom 0 []) else ((ms.splitOn ",").mapM String.toNat?).map (.rfrom 0)
   | ["read", n] => n.toNat?.map .read
   | ["peek", n] => n.toNat?.map .peek
   | ["rwait", n] => n.toNat?.map .rwait
@@ -62,6 +67,7 @@ def parseCall (w : String) : Option Call :=
 
 def callName : Call → String
   | .write _ => "write" | .wwait _ => "wwait" | .wfill => "wfill" | .wcommit _ => "wcommit"
+  | .rfrom _ _ => "rfrom" | .rfcommit _ _ => "rfrom" | .rfret _ _ => "rfrom"
   | .read _ => "read" | .peek _ => "peek" | .rwait _ => "rwait" | .use => "use" | .commit _ => "commit"
   | .close => "close" | .len => "len"
 
@@ -104,6 +110,10 @@ def accel (cfg : Cfg) (s : St) (t : Tid) : St :=
     | .f0 start len j =>
       if j < len then
         ({ s with sh := { s.sh with buf := copyLoop cfg s.sh.buf start j len } }).setTh t (th.goto (.f0 start len len))
+      else s
+    | .g111c tot ms start n j =>
+      if j < n then
+        ({ s with sh := { s.sh with buf := copyLoop cfg s.sh.buf start j n } }).setTh t (th.goto (.g111c tot ms start n n))
       else s
     | _ => s
   | none => s
@@ -193,6 +203,8 @@ def needHave (d : DSt) (th : Th) : Nat × Nat :=
   | some (.write n) => (n, space)
   | some (.wwait n) => (n, space)
   | some (.wcommit n) => (min n th.filled, space)
+  | some (.rfrom _ _) => (1, space)
+  | some (.rfcommit _ _) => (th.filled, space)
   | _ => (0, 0)
 
 def unfinished (th : Th) : Bool := !(th.pc == .idle && th.prog.isEmpty)
@@ -300,8 +312,10 @@ def handle (d : DSt) (ws : List String) : DSt × String × String :=
       | some t, some cs =>
         if !(cs.all (allowed t)) then (d, "bad-op", "bad-op") else
         match t with
-        | .p => if d.hasP then (d, "dup", "dup") else ({ d with hasP := true, s := { d.s with P := { prog := cs } } }, "thread", "thread")
-        | .c => if d.hasC then (d, "dup", "dup") else ({ d with hasC := true, s := { d.s with C := { prog := cs } } }, "thread", "thread")
+        | .p => if d.progP then (d, "dup", "dup") else
+            ({ d with hasP := true, progP := true, s := { d.s with P := { d.s.P with prog := cs, res := none } } }, "thread", "thread")
+        | .c => if d.progC then (d, "dup", "dup") else
+            ({ d with hasC := true, progC := true, s := { d.s with C := { d.s.C with prog := cs, res := none } } }, "thread", "thread")
         | .k i =>
           if i != d.s.K.length then (d, "dup", "dup") else
           ({ d with s := { d.s with K := d.s.K ++ [{ prog := cs }] } }, "thread", "thread")
